@@ -52,6 +52,13 @@ def repo_root():
     return os.environ.get("VERIF_REPO", "/repo")
 
 
+def _parse(text):
+    import warnings
+    with warnings.catch_warnings():
+        warnings.simplefilter("ignore")   # invalid escape sequences in docstrings of the code under analysis
+        return ast.parse(text)
+
+
 class _Timeout(Exception):
     pass
 
@@ -528,7 +535,7 @@ def _numeric_probe(fn, nparams, textbook, sp, seed=0, npts=5):
     defect, point)"""
     import numpy as np
     rng = np.random.default_rng(seed)
-    worst_u, pt_u, worst_t, pt_t = 0.0, None, 0.0, None
+    worst_u, pt_u, worst_t, pt_t, tb_at = 0.0, None, 0.0, None, None
     syms = sp.symbols(f"p0:{nparams}", real=True)
     tb = sp.lambdify(syms, textbook(*syms), "numpy") if textbook is not None else None
     for _ in range(npts):
@@ -540,10 +547,24 @@ def _numeric_probe(fn, nparams, textbook, sp, seed=0, npts=5):
         if du >= worst_u:
             worst_u, pt_u = du, [float(x) for x in p]
         if tb is not None:
-            dt = float(np.abs(U - np.asarray(tb(*p), dtype=complex)).max())
+            Tn = np.asarray(tb(*p), dtype=complex)
+            dt = float(np.abs(U - Tn).max())
             if dt >= worst_t:
-                worst_t, pt_t = dt, [float(x) for x in p]
-    return worst_u, pt_u, worst_t, pt_t
+                worst_t, pt_t, tb_at = dt, [float(x) for x in p], [[[float(v.real), float(v.imag)] for v in row] for row in Tn]
+    return worst_u, pt_u, worst_t, pt_t, tb_at
+
+
+def _gate_replay_script(name, point, textbook_at=None):
+    head = ("import numpy as np\n"
+            "from quimb.tensor.circuit.gates import PARAM_GATES\n"
+            f"p = np.array({point!r})\n"
+            f"U = np.asarray(PARAM_GATES[{name!r}](p), dtype=complex); d = int(round(U.size ** 0.5)); U = U.reshape(d, d)\n")
+    if textbook_at is None:
+        return head + ("observed = dict(max_abs_UdagU_minus_I=float(abs(U.conj().T @ U - np.eye(d)).max()))\n"
+                       "reproduced = observed['max_abs_UdagU_minus_I'] > 1e-9\n")
+    return head + (f"T = np.array({textbook_at!r}); T = T[..., 0] + 1j * T[..., 1]   # textbook matrix at p\n"
+                   "observed = dict(max_abs_U_minus_textbook=float(abs(U - T).max()))\n"
+                   "reproduced = observed['max_abs_U_minus_textbook'] > 1e-9\n")
 
 
 def _param_gate_obligations(mod, name, fn, tree, tb_param, obs):
@@ -593,8 +614,8 @@ def _param_gate_obligations(mod, name, fn, tree, tb_param, obs):
         if probe is not None and probe[0] > 1e-9:
             st = "failed"
             model = dict(base, params=probe[1], max_abs_UdagU_minus_I=probe[0],
-                         replay=f"from quimb.tensor.circuit.gates import PARAM_GATES; import numpy as np; "
-                                f"U=np.asarray(PARAM_GATES[{name!r}](np.array({probe[1]}))).reshape({2 ** 1},-1)")
+                         native_replay=dict(script=_gate_replay_script(name, probe[1]), reproduced=True,
+                                            expected="U^dagger U = 1 to rounding"))
         obs.append(ObResult(oid_u, "e2", st, "sympy+numeric-probe", dt, function=fid, engine="E2", model=model,
                             detail=dict(base, reason=err or res["unitary"][1],
                                         numeric_probe_max_defect=None if probe is None else probe[0])))
@@ -608,7 +629,9 @@ def _param_gate_obligations(mod, name, fn, tree, tb_param, obs):
         st, model = "unknown", None
         if probe is not None and probe[2] > 1e-9:
             st = "failed"
-            model = dict(base, params=probe[3], max_abs_U_minus_textbook=probe[2])
+            model = dict(base, params=probe[3], max_abs_U_minus_textbook=probe[2],
+                         native_replay=dict(script=_gate_replay_script(name, probe[3], probe[4]), reproduced=True,
+                                            expected="the builder returns the textbook matrix"))
         obs.append(ObResult(oid_t, "e2", st, "sympy+numeric-probe", 0.0, function=fid, engine="E2", model=model,
                             detail=dict(base, reason=err or res.get("textbook", (None, None))[1],
                                         numeric_probe_max_defect=None if probe is None else probe[2])))
@@ -716,7 +739,7 @@ def provider_gates(tier="quick", root=None, only_names=None):
     try:
         mod = load_gates_module(root)
         with open(os.path.join(root, GATES)) as f:
-            tree = ast.parse(f.read())
+            tree = _parse(f.read())
     except Exception as e:
         return [ObResult(f"{GATES}::load", "e2", "unknown", "sympy", time.time() - t0, function=GATES, engine="E2",
                          detail=f"cannot load gates module: {type(e).__name__}: {e}")]
@@ -733,6 +756,7 @@ def provider_gates(tier="quick", root=None, only_names=None):
     _ordering_convention_obligation(obs)
     # registry census: every registered name is either parametrised, constant or special-without-array (none today)
     other = sorted(set(mod.ALL_GATES) - set(mod.PARAM_GATES) - set(mod.CONSTANT_GATES))
+    _register_replay_hooks(obs)
     obs.append(ObResult(f"{GATES}::registry::every-gate-has-a-unitarity-obligation", "e2",
                         "unknown" if other else "discharged", "reflection", 0.0, function=f"{GATES}::registry",
                         engine="E2", detail=dict(not_covered=other, param=len(mod.PARAM_GATES),
@@ -881,7 +905,7 @@ class Hierarchy:
                 continue
             rel = f"{CIRC}/{fn}"
             with open(os.path.join(d, fn)) as f:
-                tree = ast.parse(f.read())
+                tree = _parse(f.read())
             for node in tree.body:
                 if isinstance(node, ast.ClassDef):
                     self.classes[node.name] = ClassInfo(rel, node)
@@ -919,7 +943,6 @@ class Hierarchy:
 
     def subclasses_inheriting(self, fi):
         """context classes in which fi is the resolved implementation of its name"""
-        base_name = fi.name.split(".")[0] if fi.kind == "setter" else fi.name
         out = []
         for k in self.circuit_classes:
             if fi.cls.name in [x.name for x in self.mro(k)]:
@@ -2042,7 +2065,7 @@ def provider_cache(tier="quick", root=None, replays=True):
                 continue
             rel = os.path.relpath(path, h.root)
             try:
-                tree = ast.parse(txt)
+                tree = _parse(txt)
             except SyntaxError:
                 outside.append(f"{rel}: unparsable")
                 continue
